@@ -70,6 +70,19 @@ pub fn level_sensitive_strings() -> Vec<Vec<u8>> {
         b"]=]\n]]\nc\nd\ne\nf\ng h i j k l m".to_vec(),
         b"x]==]\n]=]\n]]\nd\ne\nf\ng h i j k".to_vec(),
         b"local banner = [=[ generated ]=] local first = rows[index[1]] return banner, first".to_vec(),
+        // long-bracket eligible by length / line count, but with bytes a long bracket cannot
+        // carry faithfully (a reader turns CRLF, LFCR and CR inside `[[..]]` into LF): must be
+        // written quoted. `\t` and `\x0C` companions pin the quoted form for them too.
+        long_with(64, &[(10, b"\r\n")]),
+        long_with(64, &[(20, b"\r")]),
+        long_with(64, &[(0, b"\r\n")]),
+        long_with(64, &[(63, b"\r")]),
+        long_with(70, &[(5, b"\n\r"), (30, b"]]"), (40, b"\r\n")]),
+        long_with(64, &[(12, b"\t")]),
+        long_with(64, &[(12, b"\x0c")]),
+        b"line 0 ok\r\nline 1 ok\r\nline 2 ok\r\nline 3 ok\r\nline 4 ok\r\nline 5 ok\r\nline 6".to_vec(),
+        b"l0\rl1\nl2\nl3\nl4\nl5\nl6 tail of the text".to_vec(),
+        b"t0\tx\nl1\nl2\nl3\nl4\nl5\nl6 tail of the text".to_vec(),
     ]
 }
 
@@ -213,6 +226,57 @@ fn wrap_contexts(e: Ex) -> Vec<Blk> {
         stmts(vec![St::Local(vec!["v".into()], vec![e.clone()])]),
         stmts(vec![St::CallSt(call(id("f"), vec![e.clone(), e]))]),
     ]
+}
+
+/// `const` declarations (Luau): 1–3 names x 0–3 values x every kind of last value, inside a
+/// variadic function. The generators pad them (see `St::Const`); the comparison is against the
+/// padded declaration, so a missing or superfluous `nil` / throwaway name is a failing input.
+pub fn const_family() -> Vec<(&'static str, Blk)> {
+    let mut out = Vec::new();
+    let f = || call(id("f"), vec![]);
+    let lasts: Vec<Ex> = vec![
+        Ex::Nil,
+        num(1.0),
+        f(),
+        Ex::Varargs,
+        paren(f()),
+        paren(Ex::Varargs),
+        Ex::Call(bx(id("o")), Some("m".into()), Args::Tuple(vec![])),
+        Ex::MethodInst(bx(id("o")), "m".into(), vec![tname("T")], Args::Tuple(vec![])),
+        Ex::Call(bx(id("f")), None, Args::Str(b"s".to_vec())),
+        bin(8, f(), num(1.0)),
+        un(1, f()),
+        Ex::Cast(bx(f()), tname("T")),
+        Ex::Inst(bx(id("f")), vec![tname("T")]),
+        Ex::IfExp(bx(id("a")), bx(f()), vec![], bx(Ex::Varargs)),
+        Ex::Table(vec![Entry::Val(Ex::Varargs)]),
+    ];
+    let names_pool = ["first", "second", "third"];
+    for n in 1..=3usize {
+        for v in 0..=3usize {
+            let lasts_here: Vec<Option<&Ex>> = if v == 0 { vec![None] } else { lasts.iter().map(Some).collect() };
+            for last in lasts_here {
+                let mut values: Vec<Ex> = (0..v.saturating_sub(1)).map(|i| num(i as f64 + 2.0)).collect();
+                if let Some(l) = last {
+                    values.push(l.clone());
+                }
+                for typed in [false, true] {
+                    let names: Vec<(String, Option<Ty>)> = (0..n)
+                        .map(|i| (names_pool[i].to_owned(), if typed && i % 2 == 0 { Some(tname("T")) } else { None }))
+                        .collect();
+                    let body = Blk {
+                        stmts: vec![St::Const(names, values.clone()), St::CallSt(call(paren(id("g")), vec![]))],
+                        last: Some(Last::Return(vec![id("first")])),
+                    };
+                    out.push((
+                        "const-padding",
+                        stmts(vec![St::LocalFn("w".into(), Func { params: vec![], variadic: true, body, sig: None })]),
+                    ));
+                }
+            }
+        }
+    }
+    out
 }
 
 /// number literals: every exponent-notation literal alone, next to `..`, a keyword and an
@@ -850,7 +914,11 @@ impl Gen {
                 let names = (0..n)
                     .map(|_| (self.name(), if self.rng.chance(2, 3) { Some(gen_ty(&mut self.rng, 2)) } else { None }))
                     .collect();
-                St::LocalT(names, self.exprs(e, 0, 2))
+                if self.rng.chance(1, 3) {
+                    St::Const(names, self.exprs(e, 0, 3))
+                } else {
+                    St::LocalT(names, self.exprs(e, 0, 2))
+                }
             } else {
                 let generics = match self.rng.below(7) {
                     0 => vec![Generic::Var("A".into())],
